@@ -66,6 +66,13 @@ class CallGraph:
                                 out.setdefault(val, c.func.id)
                             if isinstance(c, ast.Return) and isinstance(c.value, ast.Name) and c.value.id in self.prog.classes:
                                 out.setdefault(val, c.value.id)
+                if isinstance(n, (ast.Tuple, ast.List)) and n.elts and all(isinstance(e, (ast.Tuple, ast.List)) and len(e.elts) == 2 and isinstance(e.elts[1], ast.Name)
+                                                                            and e.elts[1].id in self.prog.classes for e in n.elts):
+                    # a table of (player kind, node class) pairs written in the function itself
+                    for e in n.elts:
+                        ok, val = self.prog.try_const(e.elts[0], f.mod)
+                        if ok and isinstance(val, str):
+                            out.setdefault(val, e.elts[1].id)
                 if isinstance(n, ast.Dict) and n.keys and all(isinstance(v, ast.Name) and v.id in self.prog.classes for v in n.values):
                     for k, v in zip(n.keys, n.values):
                         ok, val = self.prog.try_const(k, f.mod) if k is not None else (False, None)
@@ -137,6 +144,17 @@ class CallGraph:
                 out.setdefault(n.targets[0].id, set()).add(n.value.func.id)
         return out
 
+    def _table(self, g, name):
+        """The display a table name stands for: a module-level constant, or a local of g assigned exactly once, to a display."""
+        t = g.mod.consts.get(name)
+        if t is not None and isinstance(t, (ast.Tuple, ast.List, ast.Dict)):
+            return t
+        defs = [n for n in walk_no_nested_defs(g.node) if isinstance(n, ast.Assign) and any(isinstance(x, ast.Name) and x.id == name for x in n.targets)]
+        stores = [n for n in walk_no_nested_defs(g.node) if isinstance(n, ast.Name) and n.id == name and isinstance(n.ctx, ast.Store)]
+        if len(defs) == 1 and len(stores) == 1 and isinstance(defs[0].value, (ast.Tuple, ast.List, ast.Dict)):
+            return defs[0].value
+        return None
+
     def _classes_of_expr(self, g, e, depth):
         """Class names an expression of function g can evaluate to: a class name, a conditional between such, a look-up in a
         module-level table whose values are class names (`TABLE[x]`, `TABLE.get(x[, default])`), a local assigned from those."""
@@ -151,8 +169,8 @@ class CallGraph:
                 if isinstance(n, ast.Assign) and any(isinstance(t, ast.Name) and t.id == e.id for t in n.targets):
                     out |= self._classes_of_expr(g, n.value, depth + 1)
                 # `for key, cls in TABLE:` over a module-level table of (key, class) pairs
-                if isinstance(n, (ast.For, ast.comprehension)) and isinstance(n.iter, ast.Name) and n.iter.id in g.mod.consts:
-                    t = g.mod.consts[n.iter.id]
+                if isinstance(n, (ast.For, ast.comprehension)) and isinstance(n.iter, ast.Name) and self._table(g, n.iter.id) is not None:
+                    t = self._table(g, n.iter.id)
                     rows = t.elts if isinstance(t, (ast.Tuple, ast.List)) else (list(t.values) if isinstance(t, ast.Dict) else [])
                     tg = n.target
                     if isinstance(tg, ast.Name) and tg.id == e.id:
@@ -166,6 +184,12 @@ class CallGraph:
             return out
         if isinstance(e, ast.IfExp):
             return self._classes_of_expr(g, e.body, depth + 1) | self._classes_of_expr(g, e.orelse, depth + 1)
+        if isinstance(e, ast.Call) and isinstance(e.func, ast.Name) and e.func.id == "next" and e.args and isinstance(e.args[0], (ast.GeneratorExp, ast.ListComp)):
+            # next((cls for kind, cls in TABLE if kind == x), default)
+            out = self._classes_of_expr(g, e.args[0].elt, depth + 1)
+            if len(e.args) > 1:
+                out |= self._classes_of_expr(g, e.args[1], depth + 1)
+            return out
         table = None
         extra = set()
         if isinstance(e, ast.Subscript) and isinstance(e.value, ast.Name):
@@ -174,8 +198,8 @@ class CallGraph:
             table = e.func.value.id
             if len(e.args) > 1:
                 extra = self._classes_of_expr(g, e.args[1], depth + 1)
-        if table is not None and table in g.mod.consts:
-            t = g.mod.consts[table]
+        if table is not None and self._table(g, table) is not None:
+            t = self._table(g, table)
             vals = t.values if isinstance(t, ast.Dict) else (t.elts if isinstance(t, (ast.Tuple, ast.List)) else [])
             out = set(extra)
             for v in vals:
@@ -209,6 +233,13 @@ class CallGraph:
                                     init = prog.resolve_method(cname, "__init__")
                                     if init and init not in out:
                                         out.append(init)
+            if out:
+                return out
+            # a local that holds a class picked from a table / a conditional: `cls = next((c for k, c in TABLE if k == x), None); cls(...)`
+            for cname in sorted(self._classes_of_expr(f, fn, 0)):
+                init = prog.resolve_method(cname, "__init__")
+                if init and init not in out:
+                    out.append(init)
             if out:
                 return out
             if name in f.mod.imports:
